@@ -29,7 +29,7 @@ ALL_BASE_KINDS = ["u8", "u64", "i32", "usize", "bool", "s3", "slice", "cb", "ptr
 EXT_KINDS = ["cb_u64", "fnptr"]
 MORE_CB_KINDS = ["cb_p2", "cb_p3"]  # OpaqueCallback<Point2>, OpaqueCallback<Addr>: further struct element types
 RECVS = ["ref", "mut", "own"]
-RETS = ["void", "u64", "bool", "s3", "self"]
+RETS = ["void", "u64", "bool", "s3", "self", "vptr", "cvptr"]  # vptr/cvptr: raw `void *` / `const void *` results
 CONTS = ["Box", "Mut", "Ref"]
 CTXS = ["none", "arc"]
 TRAIT_NAMES = ["Alpha", "Beta", "Gamma", "Delta"]
